@@ -60,6 +60,22 @@ func corruptFile(w *World, op *Op) {
 		out = append(w.opBytes(op), out...)
 	case "crlf":
 		out = bytes.ReplaceAll(bytes.ReplaceAll(out, []byte("\r\n"), []byte("\n")), []byte("\n"), []byte("\r\n"))
+	case "linebreaks":
+		// the file's line breaks become another break the YAML scanner knows (a lone CR, NEL, LS, PS)
+		// or knows not (VT, FF), from some line on; often with a line that does not parse at the end, so
+		// that whoever reports "line N" of such a file meets a line count that is not the number of LFs
+		brk := Pick(r, []string{"\r", "\u0085", "\u2028", "\u2029", "\r\r\n", "\v", "\f"})
+		lines := strings.Split(string(out), "\n")
+		from := r.Intn(len(lines))
+		txt := strings.Join(lines[:from], "\n")
+		if from > 0 {
+			txt += "\n"
+		}
+		txt += strings.Join(lines[from:], brk)
+		if r.Bool() {
+			txt = strings.TrimRight(txt, "\r\n\u0085\u2028\u2029\v\f") + brk + Pick(r, []string{"extensions: [", "  - {", ": :", "\t- x", "\"unterminated", "a: *nowhere", "? [", "}"})
+		}
+		out = []byte(txt)
 	case "hash-only":
 		// a hash line without newline at the end of the file, optionally followed by nothing else
 		out = []byte("#HASH:" + b64(r.Bytes(20)))
